@@ -24,60 +24,56 @@ DROP = "droplets.droplets"
 
 
 def check_overlaps(ctx: Ctx):
+    from ..algebra import Converter, Expr, NotAlgebraic
+    from ..astutil import value_cases, truth_of
+
     m = ctx.model
     fi = m.func(f"{DROP}.SphericalDroplet.overlaps")
     fv = view(m, fi)
-    si = stmt_index(fv)
     site = fi.qualname
     other, grid = fi.params[1], fi.params[2]
     rets = [n.stmt for n in fv.return_nodes()]
-    # single exit: return distance < self.radius + other.radius
-    ok_single = len(rets) == 1
-    ctx.decide(ok_single, "METRIC", site + ":single-exit", (fi, rets[1]) if len(rets) > 1 else fi,
-               "the verdict is taken only after the distance was measured in the selected metric",
-               f"overlaps() has {len(rets)} return statements: a verdict is produced without (or before) measuring the distance in the grid's periodic metric, e.g. `{U(rets[0])[:70]}`")
-    ret = rets[-1]
-    cp = compare_parts(ret.value) if isinstance(ret.value, ast.Compare) else None
-    dn = None
-    if cp:
-        l, op, r = cp
-        from ..algebra import Converter, Expr, NotAlgebraic
-
+    cases = []
+    for r in rets:
+        for dec, val in value_cases(fv, r, r.value):
+            cases.append((truth_of(dec, f"{grid} is None"), val, r))
+    want_sum = Expr.atom("self.radius") + Expr.atom(f"{other}.radius")
+    eu = (f"float(np.linalg.norm(self.position - {other}.position))", f"np.linalg.norm(self.position - {other}.position)",
+          f"float(np.linalg.norm({other}.position - self.position))", f"np.linalg.norm({other}.position - self.position)")
+    gr = (f"{grid}.distance(self.position, {other}.position, coords='cartesian')", f"{grid}.distance({other}.position, self.position, coords='cartesian')",
+          f"float({grid}.distance(self.position, {other}.position, coords='cartesian'))")
+    bad_metric = bad_strict = early = None
+    n_ok = 0
+    for isnone, val, r in cases:
+        cp = compare_parts(val) if isinstance(val, ast.Compare) else None
+        if cp is None:
+            early = (r, val)
+            continue
+        l, op, rr = cp
+        if isinstance(op, ast.Gt):
+            l, rr, op = rr, l, ast.Lt()
         try:
-            rr = Converter().conv(r if isinstance(op, ast.Lt) else l)
-            want = Expr.atom("self.radius") + Expr.atom(f"{other}.radius")
-            side = l if isinstance(op, ast.Lt) else r
-            ok = isinstance(op, (ast.Lt, ast.Gt)) and rr == want and isinstance(side, ast.Name)
-            dn = side.id if isinstance(side, ast.Name) else None
+            rhs_ok = Converter().conv(rr) == want_sum
         except NotAlgebraic:
-            ok = False
-    else:
-        ok = False
-    ctx.decide(ok, "STRICT", site, (fi, ret), "overlap ⇔ distance < r1 + r2 (strict)",
-               f"`{U(ret.value)}`: two droplets overlap exactly when their centre distance is strictly smaller than the sum of the radii")
-    if dn is None:
-        return
-    # the two definitions of the distance
-    defs = [s for s in fv.statements() if isinstance(s, ast.Assign) and U(s.targets[0]) == dn]
-    got = {}
-    for s in defs:
-        pol = None
-        for t, p in si.guards(s):
-            c2 = compare_parts(t)
-            if c2 and U(c2[0]) == grid and isinstance(c2[2], ast.Constant) and c2[2].value is None:
-                pol = p if isinstance(c2[1], ast.Is) else (not p if isinstance(c2[1], ast.IsNot) else None)
-        got[pol] = s
-    ok_e = True in got and U(got[True].value).replace("float(", "").rstrip(")") .startswith("np.linalg.norm(self.position - %s.position" % other)
-    ok_e = ok_e or (True in got and U(got[True].value) in (f"float(np.linalg.norm(self.position - {other}.position))", f"np.linalg.norm(self.position - {other}.position)",
-                                                       f"float(np.linalg.norm({other}.position - self.position))"))
-    okg = False
-    if False in got:
-        v = got[False].value
-        okg = isinstance(v, ast.Call) and isinstance(v.func, ast.Attribute) and v.func.attr == "distance" and U(v.func.value) == grid \
-            and {U(a) for a in v.args[:2]} == {"self.position", f"{other}.position"} and isinstance(kwarg(v, "coords"), ast.Constant) and kwarg(v, "coords").value == "cartesian"
-    ctx.decide(bool(ok_e and okg and set(got) == {True, False}), "METRIC", site, (fi, got.get(False, ret)),
+            rhs_ok = False
+        if not (isinstance(op, ast.Lt) and rhs_ok):
+            bad_strict = (r, val)
+            continue
+        dist = U(l)
+        if (isnone is True and dist in eu) or (isnone is False and dist in gr):
+            n_ok += 1
+        else:
+            bad_metric = (r, val, isnone)
+    ctx.decide(early is None, "METRIC", site + ":single-exit", (fi, early[0]) if early else fi,
+               "every verdict is the comparison of the measured distance with the sum of the radii",
+               f"overlaps() can return `{U(early[1])[:60] if early else ''}` without comparing the distance measured in the selected metric with the radii (e.g. a shortcut on raw coordinate differences ignores the periodic metric)")
+    ctx.decide(bad_strict is None and n_ok + (1 if bad_metric else 0) > 0, "STRICT", site, (fi, bad_strict[0]) if bad_strict else fi, "overlap ⇔ distance < r1 + r2 (strict)",
+               f"`{U(bad_strict[1])[:80] if bad_strict else ''}`: two droplets overlap exactly when their centre distance is strictly smaller than the sum of the radii")
+    seen = {c[0] for c in cases}
+    ctx.decide(bad_metric is None and seen >= {True, False} and n_ok >= 2, "METRIC", site, (fi, bad_metric[0]) if bad_metric else fi,
                "distance = Euclidean norm without a grid, grid.distance(…, coords='cartesian') with one",
-               f"distance definitions {[(k, U(v.value)[:60]) for k, v in got.items()]}: with a grid the periodic metric grid.distance(p1, p2, coords='cartesian') must be used, without one the Euclidean norm")
+               (f"with grid is None = {bad_metric[2]} the distance is `{U(bad_metric[1])[:80]}`" if bad_metric else f"metric selection on `{grid} is None` not found") +
+               ": with a grid the periodic metric grid.distance(p1, p2, coords='cartesian') must be used, without one the Euclidean norm")
 
 
 def check_matcher_metric(ctx: Ctx):
